@@ -196,15 +196,16 @@ Print Assumptions C07_connect_status.
 (* close before completion: UV_ECANCELED through the callback, in the next iteration *)
 Theorem C07_connect_cancel :
   forall x beh r, wf x -> c_closing (cs x) = false -> c_req (cs x) = Some r ->
-  exists e, snd (crun x [CClose; CRun] beh) = CCb r UV_ECANCELED SrcCancel :: e.
+  exists e, snd (crun x [CClose; CRun] beh) = CReg (creg x) :: CCb r UV_ECANCELED SrcCancel :: e.
 Proof. exact close_cancels. Qed.
 Print Assumptions C07_connect_cancel.
 
 Example C07_connect_nonvacuous :
   let '(x, tr) := crun (cinit false true (mkO [0] [-115; -115] [-111; -115] [true; true; true]))
                        ([CTcp; CRun; CTcp; CTcp; CRun] ++ [CClose; CRun]) (fun _ => []) in
-  tr = [CRet 0 0; CCb 0 (-111) SrcSo; CRet 1 0; CRet 2 UV_EALREADY; CCb 1 UV_ECANCELED SrcCancel; CClosed].
-Proof. vm_compute. reflexivity. Qed.
+  tr = [CRet 0 0; CReg 1; CCb 0 (-111) SrcSo; CReg 0; CRet 1 0; CReg 1; CRet 2 UV_EALREADY; CReg 1; CReg 1;
+        CReg 1; CCb 1 UV_ECANCELED SrcCancel; CClosed; CReg 0] /\ creg x = 0%nat.
+Proof. vm_compute. split; reflexivity. Qed.
 Print Assumptions C07_connect_nonvacuous.
 
 (* the repaired pipe code on the script that loses request 0 today: uv_pipe_connect2 is
@@ -212,9 +213,37 @@ Print Assumptions C07_connect_nonvacuous.
 Example C07_connect_pipe_fixed_nonvacuous :
   let '(x, tr) := crun (cinit true false (mkO [0] [0] [0] [true]))
                        ([CPipe2 0 40 false; CPipe2 0 40 false; CPipe 40; CRun] ++ [CClose; CRun]) (fun _ => []) in
-  tr = [CRet 0 0; CRet 1 UV_EALREADY; CRet 2 0; CCb 0 0 SrcSo; CCb 2 UV_EALREADY SrcRejected; CClosed].
-Proof. vm_compute. reflexivity. Qed.
+  tr = [CRet 0 0; CReg 1; CRet 1 UV_EALREADY; CReg 1; CRet 2 0; CReg 2; CCb 0 0 SrcSo;
+        CCb 2 UV_EALREADY SrcRejected; CReg 0; CReg 0; CClosed; CReg 0] /\ creg x = 0%nat.
+Proof. vm_compute. split; reflexivity. Qed.
 Print Assumptions C07_connect_pipe_fixed_nonvacuous.
+
+(* ---- request accounting: loop->active_reqs.count, uv_loop_alive, uv_loop_close ---- *)
+(* [creg] mirrors uv__req_init (register) / uv__req_unregister.  In every reachable state
+   it equals the number of connects accepted with 0 and not yet called back, which is the
+   number of requests owed a callback (connect_req + those linked behind it; [pendn]) plus
+   the overwritten ones - and nothing is overwritten on tcp handles or repaired pipes.  After
+   close + one iteration nothing stays registered there, so uv_loop_alive() = 0 and
+   uv_loop_close() = 0 as far as these requests go.  A connect call that returns an error
+   registers nothing and leaves a pending request untouched. *)
+Theorem C07_connect_accounting :
+  (forall pfix tcp o os beh,
+     let '(x, tr) := crun (cinit pfix tcp o) os beh in
+     (creg x + length (cbs tr) = length (subs tr))%nat /\
+     creg x = (pendn x + length (losts tr))%nat /\
+     (tcp = true \/ pfix = true -> creg x = pendn x)) /\
+  (forall pfix tcp o os beh,
+     let '(x, tr) := crun (cinit pfix tcp o) (os ++ [CClose; CRun]) beh in
+     creg x = length (losts tr) /\ (tcp = true \/ pfix = true -> creg x = 0%nat)) /\
+  (forall x x' e r c,
+     (tcp_connect x = (x', e) \/ exists f n z, pipe_connect2 x f n z = (x', e)) ->
+     In (CRet r c) e -> c <> 0 ->
+     creg x' = creg x /\ c_req (cs x') = c_req (cs x) /\ cchain x' = cchain x).
+Proof.
+  split; [exact connect_accounting|]. split; [exact connect_accounting_end|].
+  exact failed_connect_registers_nothing.
+Qed.
+Print Assumptions C07_connect_accounting.
 
 (* ---- send handles ---- *)
 (* uv_write2 and uv_try_write2 (current code, since /repo c5357ca) validate the send handle:
